@@ -12,7 +12,7 @@ ENGINE = {'name': 'conn',
  'timeout': 900,
  'serves': ['C01', 'C06'],
  'rule': 'lock-step operation sequences (10..60 operations: Read n, prefetch, freeze, unfreeze (nested as MatchNot does, sometimes '
-         'unbracketed), MatchingBytes, Wrap(identity), Wrap(bufio.Reader of size 16..4096 that has already read a header), in-place throttle '
+         'unbracketed), MatchingBytes, real layer4.MatcherSet.Match on generated sets of scripted matchers and real MatchNot values (one set in three is {not{no}; reading matcher; ...}; the executed part of the tree and every observation are replayed on run_set of Conn.v; oracle keys <prop>:matcherset:network-read / matcher-ran-unfrozen / stream-changed), Wrap(identity), Wrap(bufio.Reader of size 16..4096 that has already read a header), in-place throttle '
          'wrapper, Wrap(io.TeeReader)) on a real *layer4.Connection over a scripted socket; position-coded streams of 0..4*MaxMatchingBytes '
          'bytes biased to 2048/4096/8192 +-1, optionally a preloaded prefix; segmentations {1 byte, random, 2048, all at once, mixed} with '
          'occasional deadline errors; after every operation result bytes, error enum, len(buf), cap(buf), offset, frozenOffset, matching and '
